@@ -376,3 +376,24 @@ pub fn relabel(qs: &[MQ], salt: u64) -> Vec<MQ> {
         .collect();
     qs.iter().map(|q| q.map_bnodes(&|b| map[b].clone())).collect()
 }
+
+/// `n` simple, pairwise distinct statements (IRIs, plain / tagged / integer literals, at most 8
+/// distinguishable blank nodes, optionally 5 named graphs): serialised output of tens of KiB,
+/// to exercise buffering / batching in serializers and parsers.
+pub fn bulk_quads(n: usize, salt: u64, with_graphs: bool) -> Vec<MQ> {
+    (0..n)
+        .map(|i| {
+            let k = (i as u64).wrapping_mul(2654435761) % 1000 + salt;
+            let s = if i % 9 == 0 { MT::bn(format!("b{}", i % 8)) } else { MT::iri(format!("http://example.org/subject/{}", i / 3)) };
+            let p = MT::iri(format!("http://example.org/vocab#p{}", i % 7));
+            let o = match i % 4 {
+                0 => MT::iri(format!("http://example.org/object/{i}")),
+                1 => MT::string(format!("value {i} {}", "x".repeat((k % 40) as usize))),
+                2 => MT::lang(format!("valeur {i} & <co>"), "fr"),
+                _ => MT::lit(format!("{i}"), xsd("integer")),
+            };
+            let g = if with_graphs && i % 3 != 0 { Some(MT::iri(format!("http://example.org/graph/{}", i % 5))) } else { None };
+            MQ::new(s, p, o, g)
+        })
+        .collect()
+}
